@@ -1,5 +1,6 @@
 import TinsModel.Wire.App.TheoremsFixed
 import TinsModel.Wire.App.TheoremsRtp
+import TinsModel.Wire.App.TheoremsRtpReparse
 import TinsModel.Wire.App.TheoremsDhcp
 import TinsModel.Wire.App.TheoremsDhcpv6
 import TinsModel.Wire.App.TheoremsCodec
@@ -10,6 +11,7 @@ import TinsModel.Wire.App.TheoremsApi
   C04 codec inverses).  This module only gathers the per-class files (it is what `Props/C01..C04` import):
     TheoremsFixed   — ARP, VXLAN, STP, BootP (fixed headers)
     TheoremsRtp     — RTP (CSRC list, extension header, padding trailer)
+    TheoremsRtpReparse — C03 for RTP
     TheoremsDhcp    — DHCP (TLV options, cached `size_`)
     TheoremsDhcpv6  — DHCPv6 (TLV options, cached `options_size_`)
     TheoremsReparse — C03: TLV round trips of DHCP / DHCPv6 option lists, write → parse end to end; DHCPv6 invariant
